@@ -195,6 +195,48 @@ def check_pair(ctx, kp, inc, exc, k, do_match=True):
                               {'target': n, 'include': inc, 'exclude': exc})
 
 
+def constant_objects(ctx, kp):
+    """The selections the library itself hands out (BEKERN_CATEGORIES, NON_CORE_CATEGORIES) passed as they are - the very objects - on
+    the include side, on the exclude side and on both: same answers as for a literal set of the same categories."""
+    import kernpy.core.tokens as TK
+    TC = kp.TokenCategory
+    HM = kp.TokenCategoryHierarchyMapper
+    consts = [('BEKERN_CATEGORIES', kp.BEKERN_CATEGORIES), ('NON_CORE_CATEGORIES', TK.NON_CORE_CATEGORIES)]
+    others = [None, ('DECORATION',), ('BARLINES', 'SIGNATURES'), ('CORE',), ('LYRICS', 'COMMENTS')]
+    for cname, cobj in consts:
+        names = tuple(sorted(c.name for c in cobj))
+        for oth in others:
+            o_arg = None if oth is None else {TC[n] for n in oth}
+            for side in ('include', 'exclude', 'both'):
+                inc_n, exc_n = (names, oth) if side == 'include' else (oth, names) if side == 'exclude' else (names, names)
+                kw = {'include': cobj, 'exclude': o_arg} if side == 'include' else \
+                     {'include': o_arg, 'exclude': cobj} if side == 'exclude' else {'include': cobj, 'exclude': cobj}
+                exp = M.valid(inc_n, exc_n)
+                for fname, fn in (('TokenCategory.valid', TC.valid), ('Mapper.valid', HM.valid)):
+                    ctx.ev()
+                    ctx.mon('library_constant_objects_as_arguments')
+                    case = {'constant': cname, 'side': side, 'other': oth}
+                    try:
+                        got = set(_names(fn(**kw)))
+                    except Exception as e:
+                        ctx.violation('valid', f'{fname}({side}={cname} - the library\'s own object, other={oth}) raised {type(e).__name__}: {e}', case)
+                        continue
+                    if got != exp:
+                        ctx.violation('valid', f'{fname}({side}={cname}, other={oth}): got-expected={sorted(got - exp)} '
+                                      f'expected-got={sorted(exp - got)}', case)
+                    if tuple(sorted(c.name for c in cobj)) != names:
+                        ctx.violation('argument-mutated', f'{fname} modified the library constant {cname}', case)
+                for n in ('NOTE', 'CORE', 'LYRICS', 'HEADER', 'DECORATION'):
+                    ctx.ev()
+                    try:
+                        g = TC.match(TC[n], **kw)
+                        e_ = bool(({n} | M.DESC[n]) & exp)
+                        if bool(g) != e_:
+                            ctx.violation('match', f'match({n}, {side}={cname}, other={oth}) = {g!r}, model gives {e_}', dict(case, target=n))
+                    except Exception as e:
+                        ctx.violation('match', f'match({n}, {side}={cname}, other={oth}) raised {type(e).__name__}: {e}', dict(case, target=n))
+
+
 def structured_sets():
     """Tree-aware include/exclude sets: an inner category selected while (all / all but one of) its children, leaves or
     descendants are excluded, with the include at the category, at its parent, or absent."""
@@ -276,6 +318,7 @@ def run(ctx: Ctx):
     if shard_i == 0:
         structural(ctx, kp)
         invalid_args(ctx, kp)
+        constant_objects(ctx, kp)
     if ctx.tier == 'quick':
         space = arg_space(1)
         k = 0
